@@ -1,52 +1,43 @@
 #!/usr/bin/env python3
-"""bin/mutant_matrix.py [names...] -- apply each /verif/mutants/*.patch to /repo, run the quick checks of all
-claimed properties, undo; assert that the properties listed in mutants/expect.json report a violation.
-Self-validation of the checker (DESIGN.md section 7); never executes calamine."""
-import json, os, subprocess, sys, glob, re
+"""bin/mutant_matrix.py [names...] -- apply each /verif/mutants/*.patch (the reverse of a `fix:` commit) to a scratch
+copy of /repo's current tree, run the quick checks of all claimed properties, drop the copy; assert that the
+properties listed in mutants/expect.json report a violation.  Self-validation of the checker (DESIGN.md sections 7
+and 16); never executes calamine; /repo is only read."""
+import json, os, sys, glob
 VERIF = os.path.dirname(os.path.dirname(os.path.abspath(__file__)))
 sys.path.insert(0, VERIF)
-from rules import props
-PROPS = sorted(props.registry())
+sys.path.insert(0, os.path.join(VERIF, "bin"))
+import _matrix
 args = [a for a in sys.argv[1:] if not a.startswith("--")]
-st = subprocess.run(["git", "-C", "/repo", "status", "--porcelain", "--untracked-files=no"], capture_output=True, text=True).stdout.strip()
-if st:
-    sys.exit("refusing: /repo has uncommitted changes")
 exp_path = os.path.join(VERIF, "mutants", "expect.json")
 expect = json.load(open(exp_path)) if os.path.exists(exp_path) else {}
-out = {}
-fail = 0
+items = []
 for pth in sorted(glob.glob(os.path.join(VERIF, "mutants", "*.patch"))):
     name = os.path.basename(pth)[:-6]
-    if args and name not in args:
-        continue
-    r = subprocess.run(["git", "-C", "/repo", "apply", pth], capture_output=True, text=True)
-    if r.returncode != 0:
+    if not args or name in args:
+        items.append((name, pth))
+out = {}
+fail = [0]
+
+
+def done(name, res):
+    if res is None:
         out[name] = {"error": "does not apply"}
-        print(name, "DOES NOT APPLY")
-        fail += 1
-        continue
-    caught = {}
-    try:
-        def one(p):
-            return p, subprocess.run([os.path.join(VERIF, "bin", "check"), p, "--no-evidence"], capture_output=True, text=True)
-        first = [one(PROPS[0])]   # warms the fact cache for this tree
-        from concurrent.futures import ThreadPoolExecutor
-        with ThreadPoolExecutor(8) as ex:
-            rest = list(ex.map(one, PROPS[1:]))
-        for p, c in first + rest:
-            if c.returncode == 1:
-                caught[p] = re.findall(r"^  key=(.*)$", c.stdout, re.M)[:4]
-            elif c.returncode != 0:
-                caught[p] = ["ERROR exit %d" % c.returncode]
-    finally:
-        subprocess.check_call(["git", "-C", "/repo", "checkout", "--", "."])
+        print(name, "DOES NOT APPLY", flush=True)
+        fail[0] += 1
+        return
+    caught = {p: v.get("violations", [])[:4] for p, v in res.items() if v.get("exit") == 1}
+    for p, v in res.items():
+        if v.get("exit") == 2:
+            caught[p] = ["ERROR " + v.get("tail", "")[-200:]]
     want = expect.get(name, [])
     miss = [w for w in want if w not in caught]
     out[name] = {"caught_by": caught, "expected": want, "missed": miss}
-    print(name, "caught by", sorted(caught) or "NOTHING", ("MISSED " + str(miss)) if miss else "")
+    print(name, "caught by", sorted(caught) or "NOTHING", ("MISSED " + str(miss)) if miss else "", flush=True)
     if miss or not caught:
-        fail += 1
+        fail[0] += 1
+
+
+_matrix.run_many(items, None, on_done=done)
 json.dump(out, open(os.path.join(VERIF, "mutants", "matrix.json"), "w"), indent=1, sort_keys=True)
-for p in PROPS:
-    subprocess.run([os.path.join(VERIF, "bin", "check"), p], capture_output=True)
-sys.exit(1 if fail else 0)
+sys.exit(1 if fail[0] else 0)
